@@ -7,6 +7,7 @@ import (
 	"hash/fnv"
 	"sort"
 	"strings"
+	"time"
 
 	"github.com/graphql-go/graphql"
 	"github.com/graphql-go/graphql/verifmo"
@@ -19,6 +20,7 @@ type C13Scn struct {
 	Keys     []string               `json:"keys"`         // top-level response keys in document order (known by construction)
 	Op       string                 `json:"op,omitempty"` // operation name to select (multi-operation documents)
 	Vars     map[string]interface{} `json:"vars,omitempty"`
+	Cancel   bool                   `json:"cancel,omitempty"` // some resolver cancels the request context`
 	Faults   map[string]string      `json:"faults,omitempty"`
 	AllThunk bool                   `json:"all_thunk,omitempty"`
 	Entry    string                 `json:"entry"`
@@ -177,6 +179,12 @@ func (p c13) Gen(seed uint64, enum int, tier string) json.RawMessage {
 		}
 	default:
 		s.Faults = map[string]string{}
+		if r.Chance(15) && len(paths) > 0 {
+			// the request context is cancelled from inside a resolver: the caller
+			// returns, the execution goroutine carries on and must still be serial
+			s.Cancel = true
+			s.Faults["R@"+paths[r.Intn(len(paths))]] = FCancelCtx
+		}
 		pct := []int{15, 35, 60}[r.Intn(3)]
 		for _, p := range paths {
 			if r.Chance(pct) {
@@ -225,7 +233,10 @@ func (c13) Run(t TestingT, scn json.RawMessage, tape *Tape) *Outcome {
 	verifmo.Set(sc.Order, sc.Salt)
 	defer verifmo.Set(verifmo.Sorted, 0)
 	rc := &ReqCtx{Task: "c1", W: w, Faults: sc.Faults, AllThunk: sc.AllThunk, RootTok: Tok{T: "Mutation"}}
-	ctx := WithReq(context.Background(), rc)
+	base, cancel := context.WithCancel(context.Background())
+	defer cancel()
+	rc.Cancel = cancel
+	ctx := WithReq(base, rc)
 	var res *graphql.Result
 	if sc.Entry == "cache" || sc.Entry == "cache-norm" {
 		cache := graphql.NewPlanCache(graphql.PlanCacheOptions{Normalize: sc.Entry == "cache-norm"})
@@ -248,6 +259,20 @@ func (c13) Run(t TestingT, scn json.RawMessage, tape *Tape) *Outcome {
 		res = graphql.ExecutePlan(plan, graphql.ExecuteParams{Schema: w.Schema, Args: sc.Vars, Context: ctx})
 	} else {
 		res = graphql.Do(graphql.Params{Schema: w.Schema, RequestString: sc.Query, OperationName: sc.Op, VariableValues: sc.Vars, Context: ctx})
+	}
+	if sc.Cancel {
+		// the caller may have returned with the context error while the
+		// execution goroutine is still running: wait until its log is stable
+		last, stable := -1, 0
+		for i := 0; i < 400 && stable < 15; i++ {
+			time.Sleep(2 * time.Millisecond)
+			l, _, _, _ := rc.Snapshot()
+			if len(l) == last {
+				stable++
+			} else {
+				last, stable = len(l), 0
+			}
+		}
 	}
 	log, fired, _, _ := rc.Snapshot()
 	for k, v := range fired {
